@@ -164,6 +164,75 @@ def traced_idx_code():
     return run_idx
 
 
+def dtype_and_penalty_checks(ctx):
+    """(a) b omitted: the default right-hand side must be able to hold the prescribed values (complex x with a
+    real matrix, fractional x with an integer matrix): constrained entries of the returned right-hand side are
+    x_i (enforce) / x_i / eps (penalize) exactly;  (b) penalize with its DEFAULT parameter on systems in which
+    some constrained rows have no or a zero diagonal entry next to ordinary ones agrees with the condensed
+    solution."""
+    from skfem import condense, enforce, penalize, solve
+    rng = ctx.rng
+    for rep in range(ctx.scale(12, 120)):
+        n = rng.randint(4, 9)
+        dense = np.array([[rng.randint(-3, 3) if rng.random() < 0.4 else 0 for _ in range(n)] for _ in range(n)],
+                         dtype=float)
+        dense = dense + dense.T + np.diag([float(rng.randint(8, 12)) * 4 for _ in range(n)])
+        D = np.array(sorted(rng.sample(range(n), rng.randint(2, n - 2))), dtype=np.int64)
+        b = np.array([rng.randint(-4, 4) / 2 for _ in range(n)])
+        # ---- (a)
+        for adt, xdt in ((np.float64, np.complex128), (np.int64, np.float64), (np.float32, np.float64)):
+            A = sp.csr_matrix(dense.astype(adt))
+            x = np.array([rng.randint(-8, 8) / 4 + 0.125 for _ in range(n)]).astype(xdt)
+            if xdt is np.complex128:
+                x = x + 1j * np.array([rng.randint(1, 8) / 4 for _ in range(n)])
+            inp = {"A_dtype": np.dtype(adt).name, "x_dtype": np.dtype(xdt).name, "n": n, "D": D.tolist(),
+                   "x": [complex(v) for v in x.tolist()]}
+            ctx.case(dict(inp, kind="default-rhs", rep=rep), nontrivial=True)
+            ctx.count("default-rhs-dtype:" + inp["A_dtype"] + "/" + inp["x_dtype"])
+            try:
+                A2, b2 = enforce(A, x=x, D=D)
+                if not np.array_equal(np.asarray(b2)[D], x[D]):
+                    ctx.violation("enforce(A, x=x, D=D) without b: the constrained right-hand side entries are not x_i",
+                                  dict(inp, got=[complex(v) for v in np.asarray(b2)[D].tolist()]),
+                                  {"what": "enforce-row", "default_b": True})
+                eps = 2.0 ** -20
+                A3, b3 = penalize(A, x=x, D=D, epsilon=eps)
+                if not np.array_equal(np.asarray(b3)[D], x[D] / eps):
+                    ctx.violation("penalize(A, x=x, D=D) without b: the constrained right-hand side entries are not "
+                                  "x_i / epsilon", dict(inp, got=[complex(v) for v in np.asarray(b3)[D].tolist()]),
+                                  {"what": "penalize-rhs", "default_b": True})
+            except Exception as ex:
+                ctx.violation("enforce / penalize without b raised " + exc_kind(ex), dict(inp, err=repr(ex)),
+                              {"what": "raise-enforce"})
+        # ---- (b)
+        dz = dense.copy()
+        zrows = [int(i) for i in rng.sample(list(D), rng.randint(1, len(D) - 1))]
+        for i in zrows:
+            dz[i, i] = 0.0
+        if rng.random() < 0.5:
+            dz[zrows[0], :] = 0.0           # a constrained row that stores nothing at all
+        A = sp.csr_matrix(dz)
+        if rng.random() < 0.5:
+            A = A.tolil()
+            A[zrows[-1], zrows[-1]] = 0.0   # an explicitly stored zero on the diagonal
+            A = A.tocsr()
+        x = np.array([rng.randint(-8, 8) / 4 for _ in range(n)])
+        inp = {"A": dz.tolist(), "b": b.tolist(), "x": x.tolist(), "D": D.tolist(), "zero_diagonal_rows": zrows}
+        ctx.case(dict(inp, kind="default-penalty", rep=rep), nontrivial=True)
+        ctx.count("penalize-default-epsilon:zero-diagonal-rows")
+        try:
+            ref = solve(*condense(A, b, x=x, D=D))
+            got = solve(*penalize(A, b, x=x, D=D))
+            if not np.allclose(got, ref, rtol=1e-6, atol=1e-6):
+                ctx.violation("penalize with its default parameter does not agree with the condensed solution when "
+                              "some constrained rows have no / a zero diagonal entry",
+                              dict(inp, penalized=got.tolist(), condensed=ref.tolist()),
+                              {"what": "penalize-default"})
+        except Exception as ex:
+            ctx.violation("penalize with default parameter raised " + exc_kind(ex), dict(inp, err=repr(ex)),
+                          {"what": "raise-penalize"})
+
+
 def collection_checks(ctx):
     """the same split named as index array / DofsView / dict of disjoint views / dict of OVERLAPPING views
     (facet sets sharing corner DOFs, cell sets sharing facet DOFs), as D and as I, through condense, enforce
@@ -415,6 +484,7 @@ def run(ctx):
             ctx.violation("condense gives different results for array / DofsView / dict of views",
                           {"mesh": "MeshTri().refined(1)", "element": "ElementTriP2"}, {"what": "dof-collection"})
         collection_checks(ctx)
+        dtype_and_penalty_checks(ctx)
         for bad in ({}, {"I": np.array([0]), "D": np.array([1])}):
             try:
                 condense(A, b, **bad)
